@@ -28,6 +28,7 @@ from keras_tuner import backend
 from keras_tuner import utils
 from keras_tuner.api_export import keras_tuner_export
 from keras_tuner.engine import hyperparameters as hp_module
+from keras_tuner.engine import metrics_tracking
 from keras_tuner.engine import objective as obj_module
 from keras_tuner.engine import stateful
 from keras_tuner.engine import trial as trial_module
@@ -460,6 +461,8 @@ class Oracle(stateful.Stateful):
         if len(self._retry_queue) > 0:
             trial = self.trials[self._retry_queue.pop()]
             trial.status = trial_module.TrialStatus.RUNNING
+            # The retry starts over: results of the invalid run do not count.
+            trial.metrics = metrics_tracking.MetricsTracker()
             self.ongoing_trials[tuner_id] = trial
             self.save()
             self._display.on_trial_begin(trial)
